@@ -9,6 +9,7 @@ Line protocol of the C13 model (floats travel as IEEE bit patterns):
   psdrot pre post m n dx  h[m*n] w[m*n]         -> same with explicit rotations (none|fftshift|ifftshift)
   brms m n dy dx flow fhigh  r[m*n] p[m*n]      -> brmsSq
   brmsr m n flow fhigh  r[m*n] p[m*n]           -> stepAxis0 stepAxis1 brmsSqOfR
+  brms1 n flow fhigh  r[n] p[n]                 -> stepAxis1D brms1SqOfR   (1-D r / psd)
   trapz n d  y[n]                               -> trapz
   rotsrc kind n                                 -> n ints
   fftfreq n                                     -> n ints (fftfreq(n) * n)
@@ -68,6 +69,16 @@ def step (t : List String) : String :=
           brmsSqOfR fltLt Float.abs m n flow fhigh r (grid a (m * n) n)]
       else "bad-op"
     | _, _, _ => "bad-op"
+  | "brms1" :: n :: rest =>
+    match n.toNat?, parseAll? parseFloatBits? rest with
+    | some n, some (flow :: fhigh :: vs) =>
+      if vs.length = 2 * n ∧ 0 < n then
+        let a := vs.toArray
+        let r : Nat → Float := fun i => a.getD i 0.0
+        let p : Nat → Float := fun i => a.getD (n + i) 0.0
+        fmtList fmtFloat [stepAxis1D Float.abs n r, brms1SqOfR fltLt Float.abs n flow fhigh r p]
+      else "bad-op"
+    | _, _ => "bad-op"
   | "trapz" :: n :: d :: rest =>
     match n.toNat?, parseFloatBits? d, parseAll? parseFloatBits? rest with
     | some n, some d, some vs =>
